@@ -356,8 +356,16 @@ class Engine(object):
                 arrs.append(z3.Const('H.%s.%s.%d' % (key[0], key[1], i),
                                      z3.ArraySort(z3.IntSort(), s)))
             self._heap0[key] = tuple(arrs)
-            self.global_axioms += self.wf_field_facts(ty, tuple(arrs))
+            self.global_axioms += self.wf_field_facts(ty, tuple(arrs)) + self.nonnull_facts(key, tuple(arrs))
         return self._heap0[key]
+
+    def nonnull_facts(self, key, arrs):
+        """class invariant 'this reference field is never None' (spec.nonnull; justified per field by a
+        constructor contract plus a frame scan of its writers)"""
+        if key in getattr(self.spec, 'nonnull', ()):
+            o = z3.Int(fresh_name('o'))
+            return [FA([o], z3.Select(arrs[0], o) != 0, patterns=[z3.Select(arrs[0], o)])]
+        return []
 
     def wf_field_facts(self, ty, arrs):
         """container lengths / cardinalities stored in a heap field are never negative"""
@@ -434,6 +442,8 @@ class Engine(object):
                 st = st.assume(vs[-1] >= 0)
             if isinstance(ty, (TDict, TSet)):
                 st = st.assume(*self.dict_wf(SV(ty, vs)))
+            if key in getattr(self.spec, 'nonnull', ()):
+                st = st.assume(vs[0] != 0)
         st = st.copy()
         st.heap[key] = tuple(new)
         st.hver += 1
@@ -455,7 +465,8 @@ class Engine(object):
         st = st.copy()
         st.heap[key] = tuple(new)
         st.hver += 1
-        st.pc = st.pc + tuple(facts) + tuple(self.wf_field_facts(ty, tuple(new)))
+        st.pc = st.pc + tuple(facts) + tuple(self.wf_field_facts(ty, tuple(new))) + \
+            tuple(self.nonnull_facts(key, tuple(new)))
         return st
 
     def alloc(self, st, cls):
